@@ -673,6 +673,31 @@ func init() {
 	externals["runtime/debug.Stack"] = func(fr *frame, args []value) value { return []value(nil) }
 	externals["runtime/debug.FreeOSMemory"] = noop
 	externals["time.Sleep"] = noop
+	for _, n := range []string{"Info", "Debug", "Warn", "Error"} {
+		externals["log/slog."+n] = noop
+		externals["log/slog."+n+"Context"] = noop
+		externals["(*log/slog.Logger)."+n] = noop
+		externals["(*log/slog.Logger)."+n+"Context"] = noop
+	}
+	externals["log/slog.Default"] = func(fr *frame, args []value) value { return (*value)(nil) }
+	externals["log/slog.String"] = func(fr *frame, args []value) value { return slogAttr() }
+	externals["log/slog.Int"] = externals["log/slog.String"]
+	externals["log/slog.Int64"] = externals["log/slog.String"]
+	externals["log/slog.Uint64"] = externals["log/slog.String"]
+	externals["log/slog.Bool"] = externals["log/slog.String"]
+	externals["log/slog.Duration"] = externals["log/slog.String"]
+	externals["log/slog.Any"] = externals["log/slog.String"]
+	externals["log/slog.Float64"] = externals["log/slog.String"]
+	externals["log/slog.Time"] = externals["log/slog.String"]
+	externals["log/slog.Group"] = externals["log/slog.String"]
+	externals["log.Printf"] = noop
+	externals["log.Println"] = noop
+	// time: the clock is outside every claim; instants are the zero Time, durations zero
+	externals["time.Now"] = func(fr *frame, args []value) value {
+		return structure{uint64(0), int64(0), (*value)(nil)}
+	}
+	externals["time.Since"] = func(fr *frame, args []value) value { return int64(0) }
+	externals["time.Until"] = func(fr *frame, args []value) value { return int64(0) }
 	externals["internal/godebug.New"] = func(fr *frame, args []value) value { return (*value)(nil) }
 	externals["(*internal/godebug.Setting).Value"] = func(fr *frame, args []value) value { return "" }
 	externals["(*internal/godebug.Setting).IncNonDefault"] = noop
@@ -886,4 +911,9 @@ func deepEqual(in *interpreter, a, b value, seen map[[2]*value]bool) value {
 		return false
 	}
 	return eqValue(in, nil, a, b)
+}
+
+// slogAttr: a zero slog.Attr (Key string, Value{num uint64, any any}); logging is a no-op.
+func slogAttr() value {
+	return structure{"", structure{array{}, uint64(0), iface{}}}
 }
